@@ -1310,11 +1310,41 @@ func (*log).delete
       invariant[struct_last]   rangeindex == len(l.readers) - 1 ==> len(newReaders) >= 1 && newReaders[len(newReaders)-1] == l.readers[len(l.readers)-1]
       invariant[struct_new]    newReader != nil ==> !newReader.head && newReader.segment.Offset >= rdr.segment.Offset && newReader != l.readers[len(l.readers)-1]
                                    && (forall j :: 0 <= j && j < len(l.readers) && l.readers[j].segment.Offset > rdr.segment.Offset ==> newReader.segment.Offset < l.readers[j].segment.Offset)
+// C13: Size(m) is what a message adds to a segment: its record in the version new segments use plus one index item
+func (*log).Size
+    flags noframe
+    ensures[size] ret0 == ite(l.opts.Version.NewSegmentsVersion.messages == message.V1, 28, ite(l.opts.Version.NewSegmentsVersion.messages == message.V2, 36, 0 - len(m.Key) - len(m.Value)))
+                          + len(m.Key) + len(m.Value) + l.params.Size()
+
+func (*reader).Stat
+    flags noframe only_stat
+    ensures[stat_one] err == nil ==> ret0.Segments == 1 && ret0.Messages == idxCount(r.segment.Index, r.params) && ret0.Size == fsSize[r.segment.Log] + fsSize[r.segment.Index]
+    ensures[stat_missing] is(err, fs.ErrNotExist) ==> !fsExists[r.segment.Log] || !fsExists[r.segment.Index]
+
+// C13: Stat adds up the segments: their number, the items of their index files, the sizes of their files.
+// gSeqMsgs / gSeqSize are arbitrary ghost sequences: the clauses hold for every sequence that lists the
+// per-segment numbers (a ghost parameter, so no ghost accumulator is needed).
+ghost var gSeqMsgs map[int]int
+ghost var gSeqSize map[int]int
+pred seqMsgs(l *log) := forall j :: 0 <= j && j < len(l.readers) ==> gSeqMsgs[j] == idxCount(l.readers[j].segment.Index, l.readers[j].params)
+pred seqSize(l *log) := forall j :: 0 <= j && j < len(l.readers) ==> gSeqSize[j] == fsSize[l.readers[j].segment.Log] + fsSize[l.readers[j].segment.Index]
+
 func (*log).Stat
-    flags locks lockonly noframe
+    flags locks only_locks only_stat noframe
     requires[locks] nolocks()
+    requires[stat_ok] len(l.readers) >= 1 && (forall i :: 0 <= i && i < len(l.readers) ==> l.readers[i] != nil)
+    ensures[stat_segments] err == nil && !(l.opts.Readonly && len(l.readers) == 1) ==> ret0.Segments == len(l.readers)
+    ensures[stat_messages] err == nil && !(l.opts.Readonly && len(l.readers) == 1) && seqMsgs(l) ==> ret0.Messages == sumTo(gSeqMsgs, len(l.readers))
+    ensures[stat_size]     err == nil && !(l.opts.Readonly && len(l.readers) == 1) && seqSize(l) ==> ret0.Size == sumTo(gSeqSize, len(l.readers))
+    // a read-only handle on a single segment reports that segment (nothing when its files do not exist yet)
+    ensures[stat_single]   err == nil && l.opts.Readonly && len(l.readers) == 1 && fsExists[l.readers[0].segment.Log] && fsExists[l.readers[0].segment.Index] ==>
+                               ret0.Segments == 1 && ret0.Messages == idxCount(l.readers[0].segment.Index, l.readers[0].params)
     loop 1
       invariant[locks] held(&l.readersMu) == 1 && (forall a int :: a != &l.readersMu ==> heldAt(a) == 0)
+      invariant[stat_idx]      -1 <= rangeindex && rangeindex < len(l.readers)
+      invariant[stat_segments] stats.Segments == rangeindex + 1
+      invariant[stat_messages] seqMsgs(l) ==> stats.Messages == sumTo(gSeqMsgs, rangeindex + 1)
+      invariant[stat_size]     seqSize(l) ==> stats.Size == sumTo(gSeqSize, rangeindex + 1)
 func (*log).Backup
     flags locks lockonly noframe
     requires[locks] nolocks()
